@@ -235,6 +235,7 @@ class Effects(object):
             return self.type_of(t[1], fi)
         if tag == 'phi':
             ts = set(self.type_of(x, fi) for x in t[1] if x[0] != 'carried' and x != T.CONST_NONE)
+            ts.discard(None)          # alternatives of unknown type do not contradict the known ones (same convention as for return types)
             return ts.pop() if len(ts) == 1 else None
         if tag == 'ifexp':
             a, b = self.type_of(t[2], fi), self.type_of(t[3], fi)
